@@ -52,6 +52,10 @@ def check(ctx):
         "that biccs returns exactly the biconnected components and articulation points (algorithmic exactness; only the edge-stack discipline is decided)",
         "that dfs visits every node of the component exactly once",
     ]
+    # the graph these primitives work on is the one the loader builds from a file: a change there is reported here as well
+    from . import shared as _sh
+
+    ctx.run_shared(_sh.graph_loader)
 
 
 def _nf(repo, f):
@@ -307,6 +311,10 @@ def r15_3(ctx, g):
                     for u in walk_own(f.node):
                         if isinstance(u, ast.Assign) and isinstance(u.targets[0], ast.Tuple) and norm(u.value) == k.id:
                             ar.setdefault(len(u.targets[0].elts), []).append(f.qualname)
+    if not ar or any(isinstance(c_, ast.Call) and isinstance(c_.func, ast.Name) and repo.resolve_call(f_, c_) is not None for f_ in repo.module("gaftools.gfa").funcs.values() for s_ in walk_own(f_.node) if isinstance(s_, ast.Subscript) and norm(s_.value) == "self.edge_tags" for c_ in [s_.slice]):
+        raise AnalysisError("R15.3", "gaftools/gfa.py", "the keys of edge_tags are built by a helper (or not written as tuples): that writer, readers and purge agree on their shape is not read by this rule")
+    if len(set(ar)) == 1 and set(ar) != {4}:
+        raise AnalysisError("R15.3", "gaftools/gfa.py", f"edge_tags is keyed by {sorted(ar)[0]}-tuples at every site: a key convention this rule has no model of (the purge from either end is not checked)")
     ctx.check(set(ar) == {4}, "R15.3", "gaftools/gfa.py", "edge_tags is keyed by (node1, side1, node2, side2) everywhere: writer, readers and the purge use the same 4-tuple shape", f"gaftools.gfa::edge-tags-arity:{sorted(ar)}", arities={k: sorted(set(v)) for k, v in ar.items()})
     # the purge covers the key from either end
     re_ = g.remove_edge
